@@ -227,8 +227,20 @@ theorem no_public_mutators :
     (∀ d ∈ dictClasses, d.liveMutators = [] ∧ (∀ m ∈ d.methods, m ∉ mutatorNames) ∧
       d.eqDef = some "Mapping" ∧ d.hashDef = some "ImmutableDict") ∧
     dictSelfWriters = ["ImmutableDict.__init__"] ∧ dictCopiesArg = true ∧
-    dictSubclassInitsForward = true ∧ dictHashKind = .sortedItemsTypeAndValue ∧
+    dictSubclassInitsForward = true ∧ dictHashKind = .sortedItems ∧
     "__setitem__" ∈ mutatorNames ∧ "__delitem__" ∈ mutatorNames := by decide
+
+/-- The map classes are pickled / copied through their constructor (`__reduce__` on the base, inherited
+    unchanged; no other pickle or copy hook), so `_hash` is never carried across processes. -/
+theorem dict_pickle_via_ctor : dictReduceViaCtor = true := by decide
+
+/-- What that buys: whatever tuple / item hash functions the LOADING process has (`th'`, `ih'` — string hashes
+    are randomised per process), the object rebuilt there from the pickled items has the hash of every map
+    that is `==` to it there. -/
+theorem dict_unpickle_hash_fresh (th' : List Nat → Nat) (ih' : Nat × Nat → Nat) (pickled fresh : Items)
+    (h₁ : (pickled.map Prod.fst).Nodup) (h : dictEq pickled fresh = true) :
+    dictHash dictHashKind th' ih' pickled = dictHash dictHashKind th' ih' fresh :=
+  dictHash_perm _ th' ih' pickled fresh (perm_of_dictEq pickled fresh h₁ h)
 
 /-- Keys that differ only in map ordering: two maps that are `==` (as `Mapping`s) have the same
     hash, whatever the tuple hash and item hash are. -/
